@@ -246,12 +246,15 @@ class Out:
                 val = helper.uri(val)
             elif 'HASH' == type_:
                 val = self.ser._hash(val)
-            elif hasattr(val, 'cssText'):
-                val = val.cssText
-            elif hasattr(val, 'mediaText'):
-                val = val.mediaText
-            elif val in '+>~,:{;)]/=}' and not alwaysS:
-                self._remove_last_if_S()
+            else:
+                # get cssText once only, serializing nested values is expensive
+                cssText = getattr(val, 'cssText', None)
+                if cssText is not None:
+                    val = cssText
+                elif hasattr(val, 'mediaText'):
+                    val = val.mediaText
+                elif val in '+>~,:{;)]/=}' and not alwaysS:
+                    self._remove_last_if_S()
             # elif type_ in ('Property', cssutils.css.CSSRule.UNKNOWN_RULE):
             #     val = val.cssText
             # elif type_ in ('NUMBER', 'DIMENSION', 'PERCENTAGE') and val == u'0':
@@ -1032,9 +1035,11 @@ class CSSSerializer:
                 type_, val = item.type, item.value
                 if valuesOnly and type_ == cssutils.css.CSSComment:
                     continue
-                elif hasattr(val, 'cssText'):
+                # get cssText once only, serializing nested values is expensive
+                cssText = getattr(val, 'cssText', None)
+                if cssText is not None:
                     # RGBColor or CSSValue if a CSSValueList
-                    out.append(val.cssText, type_)
+                    out.append(cssText, type_)
                 else:
                     if val and val[0] == val[-1] and val[0] in '\'"':
                         val = helper.string(val[1:-1])
@@ -1132,9 +1137,11 @@ class CSSSerializer:
 
                 if valuesOnly and type_ == cssutils.css.CSSComment:
                     continue
-                elif hasattr(val, 'cssText'):
+                # get cssText once only, serializing nested values is expensive
+                cssText = getattr(val, 'cssText', None)
+                if cssText is not None:
                     # RGBColor or CSSValue if a CSSValueList
-                    out.append(val.cssText, type_)
+                    out.append(cssText, type_)
                 elif type_ == 'CHAR' and val in '-+*/':
                     out.append(val, type_, alwaysS=True)
                 else:
